@@ -801,6 +801,27 @@ pub fn translate_area(a: &Area, dc: i64, dr: i64) -> Option<Area> {
     })
 }
 
+/// The expression with every reference translated by (dc, dr) (what a shared-formula child at
+/// that distance from its master stands for); None if a reference would leave the grid.
+pub fn translate_expr(e: &Expr, dc: i64, dr: i64) -> Option<Expr> {
+    let mut ok = true;
+    let out = e.map(&mut |x| match x {
+        Expr::Ref(r) => match translate_area(&r.area, dc, dr) {
+            Some(a) => Expr::Ref(RefNode { qual: r.qual, area: a, lower: r.lower }),
+            None => {
+                ok = false;
+                Expr::Ref(r)
+            }
+        },
+        o => o,
+    });
+    if ok {
+        Some(out)
+    } else {
+        None
+    }
+}
+
 /// One structural edit of a sheet.
 #[derive(Debug, Clone, Copy, PartialEq, Eq, Serialize, Deserialize)]
 pub enum Edit {
